@@ -106,7 +106,54 @@ def run(chk):
     else:
         chk.bad('C07-count', 'pipeline', 'total>%d' % REVIEWED_TOTAL, 'the pipeline files contain %d todo!()/unimplemented!() sites, %d more than the reviewed %d (per function: %s)'
                 % (total_unimpl, total_unimpl - REVIEWED_TOTAL, REVIEWED_TOTAL, dict(sorted(per_fn.items()))), BASE, None)
+    units_rule(chk, fx)
     chk.undecide('internal-error diagnostics (compiler_bug / type_not_found, e.g. `f a, b = a * b + 1`), unwrap()/enum_unwrap! sites and hangs are not judged')
     return ('Scan of every `match` over a syntax-tree enum in the checker / optimiser / code generator (scrutinee types from rustc typeck; variant constructibility from constructor '
             'sites in the resolved program) for arms that are solely todo!/unimplemented!/panic!, plus a monotone count of unimplemented-markers. '
             'Internal-error diagnostics, unwrap sites and hangs are not decided.'), {}
+
+
+def units_rule(chk, fx):
+    """a byte offset (first component of str::char_indices) used to index a collection whose length is a character count -> out-of-bounds panic on non-ASCII text"""
+    import json, os
+    chk.rule('C07-units', 'no collection sized by a character count (`s.chars().count()`) is indexed with a byte offset taken from `s.char_indices()`: '
+                          'for non-ASCII text the offset exceeds the length and the compiler panics (diagnostics helpers run on arbitrary identifiers)')
+    examined = 0
+    for crate in ('erg_common', 'erg_parser', 'erg_compiler'):
+        idx = json.load(open(os.path.join(fx.dir, crate, 'index.json')))
+        for relfile in idx['files']:
+            d = fx.file(relfile, crate)
+            for f in d['fns']:
+                txt_has = False
+                char_counts, char_vecs, byte_idx = set(), set(), set()
+                for n in T.walk(f['body']):
+                    if n.get('k') == 'Let' and n['pat'].get('k') == 'Bind' and 'init' in n:
+                        s_ = T.show(n['init'])
+                        if '.chars().count()' in s_:
+                            char_counts.add(n['pat']['n'])
+                for n in T.walk(f['body']):
+                    if n.get('k') == 'Let' and n['pat'].get('k') == 'Bind' and 'init' in n:
+                        s_ = T.show(n['init'])
+                        if any(c in s_ for c in char_counts) and ('collect' in s_ or 'vec' in ''.join(n['init'].get('m') or []) or 'with_capacity' in s_ or 'from_elem' in s_) \
+                                or ('.chars().count()' in s_ and ('collect' in s_ or 'from_elem' in s_)):
+                            char_vecs.add(n['pat']['n'])
+                    if n.get('k') == 'Match' and n.get('src') == 'ForLoopDesugar' and 'char_indices()' in T.show(n['x']) and '.enumerate()' not in T.show(n['x']):
+                        for m in T.walk(n):
+                            if m.get('k') == 'Match' and m is not n:
+                                for arm in m['arms']:
+                                    b = T.pat_bindings(arm['pat'])
+                                    if b:
+                                        byte_idx.add(b[0])
+                if not char_vecs:
+                    continue
+                examined += 1
+                where = T.norm(f['path'])
+                for n in T.walk(f['body']):
+                    if n.get('k') == 'Index' and T.peel(n['x']).get('k') == 'Local' and T.peel(n['x'])['n'] in char_vecs:
+                        used = {x['n'] for x in T.walk(n['i']) if x.get('k') == 'Local'} & byte_idx
+                        if used:
+                            chk.bad('C07-units', where, '%s[%s]' % (T.peel(n['x'])['n'], T.show(n['i'])), '%s indexes `%s` (sized by a character count) with `%s`, a byte offset from char_indices(): '
+                                    'out of bounds for non-ASCII text' % (where, T.peel(n['x'])['n'], T.show(n['i'])), relfile, n['l'])
+                        else:
+                            chk.ok('C07-units', (where, T.show(n)))
+    chk.floor('functions with character-sized collections', examined, 1)
